@@ -186,7 +186,11 @@ let () =
                           []) row)) mat32 in
               if !outside || m < 2 then "OK"
               else begin
-                let e = enum_dy wrows in
+                (* exact reference: all words, or (wide motifs on a grid, `ref=conv`) the convolution
+                   with equal scores merged -- proved to give the same checker verdicts
+                   (TfmConv.c12_check_conv / c13_check_conv) *)
+                let e = if (try List.assoc "ref" fields = "conv" with Not_found -> false)
+                  then conv_dy wrows else enum_dy wrows in
                 let bgdy = List.map (fun b -> dy_exn "background" (f32_to_dy b)) bg32 in
                 let tol = tol_bg (nat_of_int m) bgdy in
                 (* input predicates naming the known limits of the code (see known_findings.d/tfm.json);
